@@ -12,7 +12,7 @@ import (
 func init() {
 	register(&propDef{
 		ID:          "C02",
-		Explanation: "Decides four structural necessary conditions of 'generated Go compiles and renders what the template denotes', for ALL emission paths of the generator (GEM: every function of package generator abstracted to a tree of emissions; loops unrolled 0/1/2; paths rendered with typed placeholders and parsed with go/parser): R1 every path is syntactically valid Go; R2 every string-literal emission is a well-formed interpreted-string body (constants checked with strconv.Unquote, holes must come through escapeQuotes or be html-escaped parser names); R3 expressions owned by a guarded construct (if / else-if / for / switch / case / conditional attribute) are only emitted or collected after the guard's own expression was emitted in the same function; R4 the two void-element tables agree, the void early-return precedes children and close tag, Go comments emit nothing; R5 the literal-coalescing layer closes a pending literal before any Go text; R6 every emission path type-checks (go/types, in process) against the current templ and templ/runtime packages with its holes left as undefined placeholders — a misspelled or removed runtime function, a wrong argument count, an assignment count mismatch or a wrongly typed value in an emitted template is reported; R7 a control-flow writer that receives the node following its own node passes it to every child list it writes (if / else-if / else, for, switch cases), so the last inline child of whichever branch is taken keeps its separation from inline content after the statement; R8 in the spread-attribute renderer every case whose value carries a boolean (bool, *bool, func() bool, KeyValue[…, bool]) writes the attribute only under a condition that has that boolean as a conjunct; R9 the node dispatcher renders a node's trailing whitespace exactly under `inline-or-text(current) && inline-or-text(next)` (same classifier on both); R10 element writers emit open tag, attributes, '>', children and close tag in this order on every path; R11 no emitted `if <expr> {` / `for <expr> {` has an empty body (what the condition guards is emitted inside it). NOT decided: that the emitted constants spell the template's markup (only their order and well-formedness), argument passing, that `go build` accepts arbitrary user expressions.",
+		Explanation: "Decides four structural necessary conditions of 'generated Go compiles and renders what the template denotes', for ALL emission paths of the generator (GEM: every function of package generator abstracted to a tree of emissions; loops unrolled 0/1/2; paths rendered with typed placeholders and parsed with go/parser): R1 every path is syntactically valid Go; R2 every string-literal emission is a well-formed interpreted-string body (constants checked with strconv.Unquote, holes must come through escapeQuotes or be html-escaped parser names); R3 expressions owned by a guarded construct (if / else-if / for / switch / case / conditional attribute) are only emitted or collected after the guard's own expression was emitted in the same function; R4 the two void-element tables agree, the void early-return precedes children and close tag, Go comments emit nothing; R5 the literal-coalescing layer closes a pending literal before any Go text; R6 every emission path type-checks (go/types, in process) against the current templ and templ/runtime packages with its holes left as undefined placeholders — a misspelled or removed runtime function, a wrong argument count, an assignment count mismatch or a wrongly typed value in an emitted template is reported; R7 a control-flow writer that receives the node following its own node passes it to every child list it writes (if / else-if / else, for, switch cases), so the last inline child of whichever branch is taken keeps its separation from inline content after the statement; R8 in the spread-attribute renderer every case whose value carries a boolean (bool, *bool, func() bool, KeyValue[…, bool]) writes the attribute only under a condition that has that boolean as a conjunct; R9 the node dispatcher renders a node's trailing whitespace exactly under `inline-or-text(current) && inline-or-text(next)` (same classifier on both); R10 element writers emit open tag, attributes, '>', children and close tag in this order on every path; R11 no emitted `if <expr> {` / `for <expr> {` has an empty body (what the condition guards is emitted inside it). R12 every function of the generator and parser that descends into one of Then / Else / ElseIfs of a conditional node descends into all of them (collectors and emitters of the same node agree on which children exist); R13 the runtime output buffer hands every byte to its bufio.Writer and never writes to the underlying writer without flushing first, and R14 pooled buffers are flushed before they are put back and reset on acquisition or release — both are necessary for the bytes of one render to reach its writer in program order and unmixed with another render's. NOT decided: that the emitted constants spell the template's markup (only their order and well-formedness), argument passing, that `go build` accepts arbitrary user expressions.",
 		Assumptions: []string{"go/parser accepts exactly syntactically valid Go", "placeholders stand for a user expression / identifier of the right syntactic category (searched, ≤5 categories per hole)"},
 		Trusted:     []string{"go/types", "go/parser", "x/tools go/packages", "strconv.Unquote"},
 		Run:         runC02,
@@ -32,6 +32,9 @@ func runC02(c *Ctx) {
 	trailingSpacePolicy(c, "C02.R9")
 	elementEmissionOrder(c, "C02.R10")
 	guardedBodiesNotEmpty(c, "C02.R11")
+	branchCompleteness(c, "C02.R12")
+	bufferInOrder(c, "C02.R13")
+	poolDiscipline(c, "C02.R14")
 }
 
 // guarded child lists: owner type → fields that hold the guarded children
@@ -840,4 +843,77 @@ func guardedBodiesNotEmpty(c *Ctx, rule string) {
 		}
 	}
 	c.count("emitted_guards", n)
+}
+
+// branchCompleteness: C02.R12 — a function that descends into one branch of a conditional node descends into all of
+// them. Collectors (scripts, CSS classes, …) and emitters of the same node must agree on which children exist: a
+// collector that skips the else branch leaves the emitter writing a call to something that was never defined.
+func branchCompleteness(c *Ctx, rule string) {
+	n := 0
+	for _, rel := range []string{"generator", "parser/v2"} {
+		p := c.pkg(rel)
+		if p == nil {
+			continue
+		}
+		info := p.TypesInfo
+		for _, fd := range allFuncDecls(p) {
+			// struct type → set of child-list fields used in this function
+			used := map[*types.Named]map[string]bool{}
+			ast.Inspect(fd.Body, func(x ast.Node) bool {
+				se, ok := x.(*ast.SelectorExpr)
+				if !ok {
+					return true
+				}
+				sel, ok := info.Selections[se]
+				if !ok || sel.Kind() != types.FieldVal {
+					return true
+				}
+				recv := sel.Recv()
+				if pt, ok := recv.(*types.Pointer); ok {
+					recv = pt.Elem()
+				}
+				nt, ok := recv.(*types.Named)
+				if !ok || nt.Obj().Pkg() == nil || !strings.HasSuffix(nt.Obj().Pkg().Path(), "/parser/v2") {
+					return true
+				}
+				if _, isSlice := sel.Obj().Type().Underlying().(*types.Slice); !isSlice {
+					return true
+				}
+				if used[nt] == nil {
+					used[nt] = map[string]bool{}
+				}
+				used[nt][sel.Obj().Name()] = true
+				return true
+			})
+			for nt, flds := range used {
+				st, ok := nt.Underlying().(*types.Struct)
+				if !ok {
+					continue
+				}
+				// the branch lists of a conditional node: Then / Else / ElseIfs
+				var branch []string
+				for i := 0; i < st.NumFields(); i++ {
+					switch st.Field(i).Name() {
+					case "Then", "Else", "ElseIfs":
+						branch = append(branch, st.Field(i).Name())
+					}
+				}
+				if len(branch) < 2 || !(flds["Then"] || flds["Else"] || flds["ElseIfs"]) {
+					continue
+				}
+				n++
+				var missing []string
+				for _, b := range branch {
+					if !flds[b] {
+						missing = append(missing, b)
+					}
+				}
+				key := funcKey(p, fd) + "|" + nt.Obj().Name() + "|all-branches"
+				c.check(len(missing) == 0, rule, key, c.pos(fd.Pos()), "descends into "+strings.Join(branch, ", "),
+					fmt.Sprintf("%s descends into some branches of parser.%s but not into %s: what it collects or writes for the node is missing for those branches, while the other functions handling the same node still cover them (e.g. an event handler in an else branch is rendered as a call to a script function that is never defined)", fd.Name.Name, nt.Obj().Name(), strings.Join(missing, ", ")))
+			}
+		}
+	}
+	c.count("conditional_node_traversals", n)
+	c.floor(rule, 6)
 }
